@@ -956,6 +956,70 @@ def rule_r12(prog, res):
     res.floor('R12', 'iterations over document values', m, 2)
 
 
+# ------------------------------------------------------------------ R13
+def rule_r13(prog, res):
+    res.rule('R13', 'SOAP multi-reference resolution: the id table is read '
+             'with a tolerant lookup and the walk cannot revisit the '
+             'reference it is resolving')
+    m = prog.module('spyne.protocol.soap.soap11')
+    f = m.functions.get('resolve_hrefs')
+    if f is None:
+        raise AnalysisError('resolve_hrefs', 'not found')
+    ps = f.params()
+    table = ps[1]
+    subs = [x for x in walk_no_defs(f.node) if isinstance(x, ast.Subscript)
+            and isinstance(x.ctx, ast.Load) and unparse(x.value) == table]
+    guarded = []
+    for x in subs:
+        p_ = x
+        ok = False
+        while p_ is not None and p_ is not f.node:
+            par = getattr(p_, '_parent', None)
+            if isinstance(par, ast.Try) and p_ in par.body and any(
+                    h.type is None or 'KeyError' in unparse(h.type) or
+                    'LookupError' in unparse(h.type) for h in par.handlers):
+                ok = True
+            p_ = par
+        if ok:
+            guarded.append(x)
+    bad = [x for x in subs if x not in guarded]
+    res.ob('R13', f.where, 'resolve_hrefs: %d unguarded %s[...] lookups' % (
+        len(bad), table), 'VIOLATED' if bad else 'ok')
+    for x in bad[:1]:
+        res.finding('R13', 'resolve_hrefs|id-table-indexed',
+                    '%s:%d' % (m.relpath, x.lineno), 'the id table is indexed '
+                    'with the text of an href attribute (%s): a reference to '
+                    'an id the document does not define raises KeyError out '
+                    'of the request' % unparse(x)[:50])
+    rec = [c for c in calls_in(f.node) if call_name(c) == 'resolve_hrefs']
+    res.floor('R13', 'recursive calls in resolve_hrefs', len(rec), 1)
+    follows = []
+    for c in rec:
+        st = c
+        while not isinstance(st, ast.stmt):
+            st = st._parent
+        atoms = guardspec.atoms_at(st, f.node)
+        if any("get('href')" in t and pol for t, pol in atoms):
+            follows.append((c, atoms))
+    res.floor('R13', 'recursive calls that follow a reference', len(follows),
+              1)
+    for c, atoms in follows:
+        carried = len(c.args) + len(c.keywords) > 2
+        tested = any(' in ' in t for t, pol in atoms)
+        ok = carried and tested
+        where = '%s:%d' % (m.relpath, c.lineno)
+        res.ob('R13', where, 'the walk into a referenced element %s' % (
+            'carries the references being resolved and tests membership'
+            if ok else 'keeps no record of where it came from'),
+            'ok' if ok else 'VIOLATED')
+        if not ok:
+            res.finding('R13', 'resolve_hrefs|cycle-unbounded', where,
+                        'resolve_hrefs follows an href into the referenced '
+                        'element without remembering the references it is '
+                        'resolving: two elements that refer to each other '
+                        'raise RecursionError out of the request')
+
+
 def run(prog, res, tier):
     res.run_rule(rule_r8, prog, res)
     res.run_rule(rule_r7, prog, res)
@@ -968,6 +1032,7 @@ def run(prog, res, tier):
     res.run_rule(rule_r10, prog, res)
     res.run_rule(rule_r11, prog, res)
     res.run_rule(rule_r12, prog, res)
+    res.run_rule(rule_r13, prog, res)
     res.run_rule(rule_r4, prog, res, tier)
     res.run_rule(rule_r5, prog, res)
     res.run_rule(rule_r6, prog, res, tier)
@@ -985,6 +1050,15 @@ _H = 'spyne/protocol/dictdoc/hier.py'
 _MI = 'spyne/protocol/soap/mime.py'
 
 MUTANTS = [
+    Mutant('href-table-indexed', 'R13', 'fire', _S,
+           in_func('resolve_hrefs', "resolved_element = xmlids.get(ref)",
+                   "resolved_element = xmlids[ref]"), 'id-table-indexed'),
+    Mutant('href-cycle-unbounded', 'R13', 'fire', _S,
+           in_func('resolve_hrefs',
+                   "            if ref in _resolving:\n                raise "
+                   "Fault('Client.SoapError',\n                              "
+                   "          \"Circular reference to id %r\" % (ref,))\n",
+                   ""), 'cycle-unbounded'),
     Mutant('child-attribute-member-kind-unchecked', 'R12', 'fire',
            'spyne/protocol/xml.py',
            in_func('XmlDocument.complex_from_element',
